@@ -407,10 +407,10 @@ impl G {
         };
         match self.op {
             Just => format!("just({:?})", self.p.cs[0]),
-            JustSeq => format!("just({:?})", cs),
+            JustSeq => format!("just({:?}{})", cs, ["", " as &'static str", " as Vec<char>", " as [char; 2]"].get(self.p.n as usize).unwrap_or(&"")),
             Any => "any()".into(),
-            OneOf => format!("one_of({:?})", cs),
-            NoneOf => format!("none_of({:?})", cs),
+            OneOf => format!("one_of({:?}{})", cs, set_container(self.p.n)),
+            NoneOf => format!("none_of({:?}{})", cs, set_container(self.p.n)),
             Select => format!("select!{{c if {:?}.contains(c)}}", cs),
             End => "end()".into(),
             Empty => "empty()".into(),
@@ -580,6 +580,30 @@ impl G {
     }
 }
 
+fn set_container(n: u8) -> &'static str {
+    match n {
+        1 => " as String",
+        2 => " as &'static str",
+        3 => " as [char; N]",
+        4 => " as BTreeSet<char>",
+        5 => " as HashSet<char>",
+        6 => " as RangeInclusive<char>",
+        _ => "",
+    }
+}
+
+/// Randomise the container type in which token sets / sequences are handed to the library.
+pub fn vary_containers(g: &mut G, rng: &mut Rng) {
+    match g.op {
+        Op::OneOf | Op::NoneOf => g.p.n = rng.below(7) as u8,
+        Op::JustSeq => g.p.n = rng.below(4) as u8,
+        _ => {}
+    }
+    for k in &mut g.kids {
+        vary_containers(k, rng);
+    }
+}
+
 fn strip_flav(g: &G) -> String {
     let mut h = g.clone();
     h.p.flav = Flav::Unit;
@@ -669,8 +693,9 @@ impl Basis {
     /// Seeded random tree of roughly the requested size.
     pub fn random(&self, rng: &mut Rng, size: usize) -> G {
         for _ in 0..200 {
-            let g = self.random_once(rng, size);
+            let mut g = self.random_once(rng, size);
             if g.well_formed() {
+                vary_containers(&mut g, rng);
                 return g.numbered();
             }
         }
